@@ -246,6 +246,8 @@ def getattr_(E, obj, name, node=None):
         if isinstance(v, (str, bytes, list, tuple, dict, set, frozenset)) and callable(r):
             return I.SBuiltinMethod(obj, name)
         return C_wrap(E, r)
+    if isinstance(obj, I.SFile):
+        return I.SBuiltinMethod(obj, name)
     if isinstance(obj, I.SExc):
         if name == 'args':
             return I.STuple(obj.args)
@@ -1584,6 +1586,12 @@ def call_method(E, recv, name, args, kwargs):
         r = hook(recv, name, args, kwargs)
         if r is not None:
             return r
+    if isinstance(recv, I.SFile):
+        if name == 'write' and len(args) == 1:
+            from . import libmodel
+            libmodel.effect(E, 'write', recv.path)
+            return I.C(None)
+        raise I.Unsupported('method %s of a file object' % name)
     if isinstance(recv, I.C):
         if all(isinstance(a, I.C) for a in args) and all(isinstance(a, I.C) for a in kwargs.values()):
             if isinstance(recv.v, (list, dict, set)) and name in ('append', 'extend', 'update', 'add', 'pop',
@@ -1700,6 +1708,11 @@ def call_method(E, recv, name, args, kwargs):
             return I.C(tt.startswith(ta) if name == 'startswith' else tt.endswith(ta))
         f = z3.Function('StartsWith' if name == 'startswith' else 'EndsWith', vals.STR, vals.STR, z3.BoolSort())
         return E.bool_sv(f(pt, pa))
+    if name == 'replace' and len(args) == 2 and not kwargs and E.must(V.is_VStr(t)):
+        a, b = E.lift(args[0]), E.lift(args[1])
+        E.fail_if(z3.Not(z3.And(V.is_VStr(a), V.is_VStr(b))), TypeError, 'replace() arguments must be str')
+        f = z3.Function('StrReplace', vals.STR, vals.STR, vals.STR, vals.STR)
+        return I.T(V.VStr(f(V.s(t), V.s(a), V.s(b))))
     if name == 'isascii':
         f = z3.Function('StrIsAscii', vals.STR, z3.BoolSort())
         return E.bool_sv(f(V.s(t)))
